@@ -17,12 +17,14 @@ TIERS = {"quick": dict(runs=900, budget=40, det=12),
 INCONCLUSIVE_CEILING = 0.15
 RULE = ("seeded histories (new / set_params / fit / refit on data of other size and "
         "dimensionality / failing fit / clone / pickle restart / ambient RNG perturbation / "
-        "ARPACK reseed and forced non-convergence) over the 17 estimators x documented option "
+        "ARPACK reseed and forced non-convergence / a fit interrupted (KeyboardInterrupt or MemoryError raised by the simulator at a drawn metric-learn line event) before the next fit) over the 17 estimators x documented option "
         "values; the full postcondition is evaluated after every successful fit; non-trivial = "
         ">=1 successful fit checked; distinct = distinct (op:estimator) sequences")
 REAL_VS_STUB = dict(real=["metric_learn", "numpy", "scipy", "scikit-learn"],
                     stub=["ARPACK start vector / forced ArpackNoConvergence", "ambient RNG state",
-                          "simulated clock", "preprocessor PointStore"])
+                          "simulated clock", "preprocessor PointStore",
+                          "crash points: sys.settrace line events inside metric_learn (interruption "
+                          "by SimInterrupt(KeyboardInterrupt) / MemoryError at the k-th line of a fit)"])
 ASSUMPTIONS = ["well-formed input as in the property's quantifier (continuous data, n >= 4d, "
                ">= 2 classes with >= 4 members, non-collapsed tuples); SDML's documented "
                "RuntimeError and solver exceptions under forced ARPACK failure are inconclusive"]
@@ -164,7 +166,7 @@ def gen_plan(seed, tier):
       seed, tier, n_ops=(3, 9), dmax=8, pre_p=0.15, extras_p=0.0,
       weights=dict(query=4, refit=30, threshold=0, calibrate=0, handout=0, mutate=0,
                    restart=5, clone=3, ambient=8, eigsh=10, set_nondata=3, failfit=6,
-                   fault=0, new=12))
+                   fault=0, new=12, interrupt=6))
 
 
 def run_plan(plan):
